@@ -263,7 +263,7 @@ def op_result(op, r):
     if st is None:
         return "?:-"
     if st != 0:
-        return "%d:-" % st
+        return "nz:-"            # which CIP error an invalid inner request gets is C05's subject
     k = op[0]
     if k in ("r", "u"):
         d = r.get("read_frag.data", r.get("read_tag.data"))
@@ -740,9 +740,9 @@ class C15(Suite):
                         continue
                     yield {"op": "srv", "cfg": cfg, "tags": TAGS0, "route": route, "send": send, "req": req,
                            "frag": bool((k + j) % 2)}
-        for _ in range(400 if quick else 40000):
+        for _ in range(400 if quick else 25000):
             yield self.rand_srv(rng)
-        for _ in range(100 if quick else 6000):
+        for _ in range(100 if quick else 4000):
             yield self.rand_sess(rng)
 
     def rand_cfg(self, rng, segs):
@@ -886,7 +886,7 @@ class C15(Suite):
                     yield {"op": "pl", "text": spell_slash(segs), "spelled": segs}
                 else:
                     yield {"op": "main", "text": spell_slash(segs), "simple": False}
-        for _ in range(1200 if quick else 30000):
+        for _ in range(1200 if quick else 20000):
             segs = rand_segs(rng)
             form = rng.choice(["slash", "slash", "dicts", "strs", "pairs", "mixed", "ws", "swapped", "strnum"])
             text = spell_slash(segs) if form == "slash" else spell_json(segs, form, rng)
@@ -898,7 +898,7 @@ class C15(Suite):
                 yield {"op": "main", "text": mutate(rng, text, SLASHY), "simple": rng.random() < 0.3}
             if rng.random() < 0.3:
                 yield {"op": "pl", "text": slash_variants(rng, segs[:1])}
-        for _ in range(800 if quick else 30000):
+        for _ in range(800 if quick else 25000):
             alpha = SLASHY if rng.random() < 0.6 else JSONY
             yield {"op": "parse", "text": "".join(rng.choice(alpha) for _ in range(rng.randint(0, 9))), "form": "garbage"}
 
@@ -1164,6 +1164,10 @@ class C15(Suite):
                     return "text %r spells %s but parsed as %s" % (c["text"], fmt_segs(sp), out)
             elif out.startswith("ok ") and "?" in out:
                 return "malformed result " + out
+            elif op == "parse" and out.startswith("ok ") and out.endswith(" T -"):
+                return self.accounts_for(c["text"], out[3:-4])
+            elif op == "pl" and out != "reject":
+                return self.accounts_for(c["text"], out, single=True)
             return None
         if op == "main":
             sp = c.get("spelled")
@@ -1176,6 +1180,38 @@ class C15(Suite):
             return self.oracle_srv(c, out)
         if op == "sess":
             return self.oracle_sess(c, out)
+
+    @staticmethod
+    def accounts_for(text, segs, single=False):
+        """an accepted text that is not JSON must spell the segments it was parsed to, component by component,
+        with nothing left over (a trailing '/' is tolerated); ports are CIP port numbers (>= 1)"""
+        segs = [] if segs == "-" else segs.split(",")
+        for sg in segs:
+            if int(sg.split(":")[0]) < 1:
+                return "text %r parsed to a segment with port %s" % (text, sg.split(":")[0])
+        t = text.strip()
+        if t[:1] in ('[', '{', '"') or not segs:
+            return None
+        comps = t.split("/", 1) if single else t.split("/")
+        if len(comps) < 2 * len(segs) or [x for x in comps[2 * len(segs):] if x] or len(comps) > 2 * len(segs) + 1:
+            return "text %r has %d components but parsed to %d segments" % (text, len(comps), len(segs))
+        for i, sg in enumerate(segs):
+            p, l = sg.split(":")
+            try:
+                if int(comps[2 * i]) != int(p):
+                    return "component %r parsed as port %s" % (comps[2 * i], p)
+            except ValueError:
+                return "component %r parsed as port %s" % (comps[2 * i], p)
+            lc = comps[2 * i + 1]
+            if l[0] == "n":
+                try:
+                    if int(lc) != int(l[1:]):
+                        return "component %r parsed as link %s" % (lc, l[1:])
+                except ValueError:
+                    return "component %r parsed as link %s" % (lc, l[1:])
+            elif hx(lc.strip()) != l[1:]:
+                return "component %r parsed as link address %s" % (lc, l[1:])
+        return None
 
     def oracle_srv(self, c, out):
         if out.startswith("raise:"):
@@ -1218,8 +1254,8 @@ class C15(Suite):
             return "reply carries %d results for %d requests" % (len(got), len(rres))
         for g, w in zip(got, rres):
             if w == "nz":
-                if g.startswith("0:"):
-                    return "out-of-range request answered with status 0"
+                if g != "nz:-":
+                    return "out-of-range request answered with %s" % g
             elif g != w:
                 return "reply %s, expected %s" % (g, w)
         return None
